@@ -1071,6 +1071,29 @@ void output_text(FILE *pfile)
             }
             // not the first item on a line
             Chunk *prev = pc->GetPrev();
+
+            // Two chunks that would tokenize differently when joined (see the
+            // safety check in space_text()) must be separated by a space,
+            // whatever the indent or align code did to the columns.
+            if (  pc->GetColumn() == cpd.column
+               && cpd.last_char != ' '
+               && cpd.last_char != '\t')
+            {
+               Chunk *before = prev;
+
+               while (  before->IsNotNullChunk()
+                     && before->Len() == 0
+                     && !before->IsNewline())
+               {
+                  before = before->GetPrev();
+               }
+
+               if (  before->IsNotNullChunk()
+                  && before->TestFlags(PCF_FORCE_SPACE))
+               {
+                  reindent_line(pc, cpd.column + 1);
+               }
+            }
             log_rule_B("align_with_tabs");
             allow_tabs = (  options::align_with_tabs()
                          && pc->TestFlags(PCF_WAS_ALIGNED)
